@@ -495,10 +495,59 @@ def check_extreme_first(h: Harness, tmp: str):
                         f"{desc}: is_best flags {flags}", [repr(first), minimize])
 
 
+TINY_SCALES = [("1+k*2^-52", lambda k: 1.0 + k * 2.0 ** -52), ("2e5+k*1e-6", lambda k: 200000.0 + k * 1e-6), ("1e12+k*2^-12", lambda k: 1e12 + k * 2.0 ** -12),
+               ("-(3+k*1e-12)", lambda k: -(3.0 + (50 - k) * 1e-12)), ("k*1e-300", lambda k: k * 1e-300), ("k", float)]
+
+
+def check_tiny_improvements(h: Harness, tmp: str):
+    """a strict improvement is a strict improvement however small it is (neighbouring floats, a difference in the 12th digit):
+    the best-only log has a row for it.  The flags are judged by `prop_flags` on the RANKS of the values."""
+    rng = h.rng
+    for trial in range(h.n(24, 200)):
+        name, f = TINY_SCALES[trial % len(TINY_SCALES)]
+        minimize = trial % 2 == 0
+        ranks = [rng.randint(0, 50)] + [rng.randint(0, 50) for _ in range(rng.randint(3, 9))]
+        if trial % 3 == 0:
+            ranks = sorted(set(ranks), reverse=minimize)     # every registration improves, by one or a few steps
+        vals = [f(k) for k in ranks]
+        assert all((vals[a] < vals[b]) == (ranks[a] < ranks[b]) for a in range(len(ranks)) for b in range(len(ranks))), (name, ranks)
+        path = os.path.join(tmp, f"tiny{len(os.listdir(tmp))}.csv")
+        problem = SingleObjectiveProblem(lambda p: p.fit[0], minimize=minimize)
+        recorder = CSVSearchRecorder(path, problem, only_record_best_individuals=True)
+        spy = Spy()
+        tracker = SingleObjectiveProgressTracker(problem, recorders=[recorder, spy])
+        desc = f"best-only log under the real tracker, minimize={minimize}, fitness history {[repr(v) for v in vals]} (ranks {ranks}, scale {name})"
+        replay = {"ranks": ranks, "scale": name, "minimize": minimize}
+        try:
+            for j, v in enumerate(vals):
+                tracker.evaluate([make_ind(j, 4 * j, [v])])
+            recorder.csv_file.flush()
+        except Exception as e:  # noqa: BLE001
+            h.fail("SingleObjectiveProgressTracker.evaluate", "raises", f"{desc}: raised {type(e).__name__}: {e}", replay)
+            continue
+        finally:
+            recorder.csv_file.close()
+        flags = [fl for (_, fl) in spy.log]
+        snap, prob = read_snapshot(path)
+        rows = len(snap) - 1 if snap else -1
+        h.count("tiny-improvements:" + name)
+        h.seen(f"tiny:{trial}:{ranks}", nontrivial=True)
+        aggs = [-k if minimize else k for k in ranks]
+        h.holds("SingleObjectiveProgressTracker.evaluate", "row-flagged-best-is-not-a-strict-improvement", ["prop_flags", aggs, flags],
+                f"{desc}: is_best flags {flags}", replay)
+        if rows != sum(flags):
+            h.fail("CSVSearchRecorder.register", "column-not-faithful", f"{desc}: {sum(flags)} registrations were flagged best, the file has {rows} rows", replay)
+        want = sum(1 for j, a in enumerate(aggs) if j == 0 or a > max(aggs[:j]))
+        if rows != want:
+            h.fail("CSVSearchRecorder.register", "best-only-log-misses-a-strict-improvement",
+                   f"{desc}: {want} registrations are the first or a strict improvement, the file has {rows} rows", replay)
+
+
 def run(h: Harness):
     tmp = tempfile.mkdtemp(prefix="c20-", dir="/tmp")
     try:
         check_extreme_first(h, tmp)
+        check_tiny_improvements(h, tmp)
         n = 0
         for case in CORPUS:
             run_case(h, case, tmp, n)
